@@ -121,7 +121,7 @@ func (sm *seatManager) newRandom() *rand.Rand {
 
 func (sm *seatManager) nextOccupiedSeatID(startSeatID int) int {
 	for i := 1; i < sm.MaxSeat; i++ {
-		seatID := (startSeatID + i) % 9
+		seatID := (startSeatID + i) % sm.MaxSeat
 		if sp, exist := sm.SeatData[seatID]; exist && sp != nil && sp.Active() {
 			return seatID
 		}
@@ -134,7 +134,7 @@ func (sm *seatManager) nextOccupiedSeatID(startSeatID int) int {
 
 func (sm *seatManager) nextInAndHasChipsSeatID(startSeatID int) int {
 	for i := 1; i < sm.MaxSeat; i++ {
-		seatID := (startSeatID + i) % 9
+		seatID := (startSeatID + i) % sm.MaxSeat
 		if sp, exist := sm.SeatData[seatID]; exist && sp != nil && sp.HasChips && sp.IsIn {
 			return seatID
 		}
@@ -147,7 +147,7 @@ func (sm *seatManager) nextInAndHasChipsSeatID(startSeatID int) int {
 
 func (sm *seatManager) previousOccupiedSeatID(startSeatID int, shouldActive bool) int {
 	for i := 1; i < sm.MaxSeat; i++ {
-		seatID := (startSeatID + 9 - i) % 9
+		seatID := (startSeatID + sm.MaxSeat - i) % sm.MaxSeat
 		if sp, exist := sm.SeatData[seatID]; exist && sp != nil {
 			if shouldActive && sp.Active() {
 				return seatID
@@ -166,7 +166,7 @@ func (sm *seatManager) previousOccupiedSeatID(startSeatID int, shouldActive bool
 
 func (sm *seatManager) previousOccupiedAliveSeatID(startSeatID int) int {
 	for i := 1; i < sm.MaxSeat; i++ {
-		seatID := (startSeatID + 9 - i) % 9
+		seatID := (startSeatID + sm.MaxSeat - i) % sm.MaxSeat
 		if sp, exist := sm.SeatData[seatID]; exist && sp != nil {
 			if sp.IsIn && sp.HasChips {
 				return seatID
